@@ -6,6 +6,7 @@ package gldap
 import (
 	"context"
 	"crypto/tls"
+	"errors"
 	"fmt"
 	"net"
 	"net/netip"
@@ -179,6 +180,7 @@ func (s *Server) Run(addr string, opt ...Option) error {
 	s.logger.Info("listening", "op", op, "addr", s.listener.Addr())
 
 	connID := 0
+	var acceptDelay time.Duration // how long to sleep after a temporary accept failure
 	for {
 		connID++
 		// Reserve the next connection's place in connWg while holding the lock
@@ -201,8 +203,26 @@ func (s *Server) Run(addr string, opt ...Option) error {
 				s.logger.Debug("accept on closed conn")
 				return nil
 			}
+			var netErr net.Error
+			if errors.As(err, &netErr) && netErr.Temporary() { //nolint:staticcheck // same approach as net/http's Server.Serve
+				// a transient failure (e.g. running out of file descriptors)
+				// must not stop the server from accepting for good: back off
+				// and try again
+				if acceptDelay == 0 {
+					acceptDelay = 5 * time.Millisecond
+				} else {
+					acceptDelay *= 2
+				}
+				if max := 1 * time.Second; acceptDelay > max {
+					acceptDelay = max
+				}
+				s.logger.Error("temporary error accepting conn; retrying", "op", op, "err", err.Error(), "delay", acceptDelay)
+				time.Sleep(acceptDelay)
+				continue
+			}
 			return fmt.Errorf("%s: error accepting conn: %w", op, err)
 		}
+		acceptDelay = 0
 		s.logger.Debug("new connection accepted", "op", op, "conn", connID)
 		conn, err := newConn(s.shutdownCtx, connID, c, s.logger, s.router)
 		if err != nil {
